@@ -28,7 +28,7 @@ import core
 from ser import rat
 
 LEAN_MODULE = "Optyx.Props.C06b"
-EXTRA_MODULES = ["Optyx.Props.PinsC06"]   # transcription anchors (harness/source_pins.py)
+EXTRA_MODULES = ["Optyx.Props.PinsC06", "Optyx.Props.SolveTie"]   # transcription anchors (harness/source_pins.py)
 THEOREMS = [
     "Optyx.Props.C06.pass_optimal_feasible",
     "Optyx.Props.C06.scipy_optimal_feasible",
@@ -41,6 +41,12 @@ THEOREMS = [
     "Optyx.Props.Glue.lpGlue_text",
     "Optyx.Props.Dispatch.solve_autoSelect_eq_generated",
     "Optyx.Props.Dispatch.solve_route_eq_generated",
+    "Optyx.Props.SolveTie.post_processing_is_source",
+    "Optyx.Props.SolveTie.violatedAt_eq",
+    "Optyx.Props.SolveTie.postPass_retry_iff",
+    "Optyx.Props.SolveTie.finish_status_eq",
+    "Optyx.Props.SolveTie.retryKwargs_pin",
+    "Optyx.Props.SolveTie.solutionKwargs_pin",
     "Optyx.Props.PinsC06.anchors",
 ]
 ASSUMPTIONS = [
